@@ -39,34 +39,32 @@ Print Assumptions C03_forced.
 (* Recovery / Acknowledgement recipients were sent a Problem in the current incident (g_inc; for a Recovery the
    incident it closes, g_pre) or do not subscribe to Problem.  An incident also ends when its Recovery is REQUESTED
    (Checkable::OnNotificationsRequested) while notifications are disabled globally / for the checkable and
-   Checkable::SendNotifications drops the request; the recorded finding "stale-after-disabled-recovery" (u still
-   listed although its incident ended that way, nf_stale) is the visible hypothesis *)
+   Checkable::SendNotifications drops the request.  No finding hypothesis: the model follows the code with the
+   fixes c30b63e (Recovery dropped by the type filter) and b86ebcb (Recovery request dropped while disabled) *)
 Theorem C03_incident : forall c h g oi ty sent u,
   In (g, oi, NfoDone ty sent) (nf_run_points c h) ->
   ty = NfRecovery \/ ty = NfAck -> In u sent ->
-  nf_stale ty u g = false ->
   exists ur, In ur (cx_users (oi_ctx oi)) /\ nfu_id ur = u /\ nfu_enable ur = true /\
              (nf_mem u (nf_inc_set ty g) = true \/ nf_passes (nfu_types ur) 32 = false).
 Proof. exact nf_incident. Qed.
 Print Assumptions C03_incident.
 
-Theorem C03_stale_after_disabled_recovery_refuted :
-  exists g oi sent u,
-    In (g, oi, NfoDone NfAck sent) (nf_run_points nf_w_ok_cfg0 nf_w_drop_hist) /\ In u sent /\
-    nf_mem u (nf_inc_set NfAck g) = false /\
-    (forall ur, In ur (cx_users (oi_ctx oi)) -> nfu_id ur = u -> nf_passes (nfu_types ur) 32 = true) /\
-    nf_stale NfAck u g = true /\
-    snd (nf_oracle nf_w_ok_cfg0 (nf_model_trace nf_w_ok_cfg0 nf_init nf_w_drop_hist)) = Some (3, 100).
-Proof. exact nf_stale_refuted. Qed.
-Print Assumptions C03_stale_after_disabled_recovery_refuted.
+(* the former witness of "stale-after-disabled-recovery": nothing is reported, the Acknowledgement reaches nobody *)
+Theorem C03_stale_after_disabled_recovery_fixed :
+  nf_oracle nf_w_ok_cfg0 (nf_model_trace nf_w_ok_cfg0 nf_init nf_w_drop_hist) = (None, None) /\
+  map (fun p => snd p) (nf_run_points nf_w_ok_cfg0 nf_w_drop_hist) =
+    [NfoDone NfProblem [1]; NfoDone NfProblem []; NfoDone NfAck []].
+Proof. exact nf_drop_fixed. Qed.
+Print Assumptions C03_stale_after_disabled_recovery_fixed.
 
 (* "only if notifications are enabled globally, for the checkable ..." over the full operations, from ANY state:
-   a non-forced request with a flag off is dropped whole; a request for a paused object is dropped; a tick with a
+   a non-forced request with a flag off is dropped whole (a Recovery only clears the incident set of the non-paused object); a request for a paused object is dropped; a tick with a
    flag off, or for a paused object under HA (local endpoint && enable_ha), sends nothing and leaves the
    bookkeeping alone *)
 Theorem C03_request_gates : forall c now x ty force s,
   (cx_glob_en x = false \/ cx_ck_en x = false) -> force = false ->
-  nf_request c now x ty force s = (s, [NfEvDrop ty]).
+  nf_request c now x ty force s =
+  (if nf_type_eqb ty NfRecovery && negb (cx_paused x) then nf_set_npu s [] else s, [NfEvDrop ty]).
 Proof. exact nf_request_gates. Qed.
 Print Assumptions C03_request_gates.
 
